@@ -56,6 +56,106 @@ fn main() {
         "bucket" => bucket(&a[2..]),
         // routing: bounded probes of the routing functions against their specification (strings over a small alphabet, small route
         // tables in every order, round-robin loads)
+        // workers <op> ...: the worker-table operations of C33 against their specification, under the virtual clock
+        //   is_available <status> <running> <max>
+        //   sweep <timeout_ns> <now_ns> <n> {<id> <status> <hb_ns> <running>}*
+        //   heartbeat <worker_id> <hb_running> <hb_events> <now_ns> <n> {<id> <status> <hb_ns> <running>}*
+        //   round_robin <counter> <n> {<id> <running> <cores>}*      least_loaded <n> {<id> <running> <cores>}*
+        "workers" => {
+            use std::collections::HashMap;
+            use std::time::{Duration, Instant};
+            use varpulis_cluster::pipeline_group::PipelinePlacement;
+            use varpulis_cluster::worker::{HeartbeatRequest, WorkerId, WorkerNode, WorkerStatus};
+            use varpulis_cluster::{LeastLoadedPlacement, PlacementStrategy, RoundRobinPlacement};
+            let st = |s: &str| match s { "Registering" => WorkerStatus::Registering, "Ready" => WorkerStatus::Ready, "Unhealthy" => WorkerStatus::Unhealthy, _ => WorkerStatus::Draining };
+            let at = |ns: i64| { set_clock(ns / 1_000_000_000 + 1000, ns % 1_000_000_000); Instant::now() };
+            let mk = |id: &str, status: &str, hb: i64, running: usize| { let mut w = WorkerNode::new(WorkerId(format!("w{id}")), "http://x".into(), "k".into()); w.status = st(status); w.last_heartbeat = at(hb); w.capacity.pipelines_running = running; w };
+            let op = a[2].as_str();
+            let mut bad: Vec<String> = Vec::new();
+            match op {
+                "is_available" => {
+                    let mut w = mk("0", &a[3], 0, a[4].parse().unwrap()); w.capacity.max_pipelines = a[5].parse().unwrap();
+                    let exp = a[3] == "Ready" && w.capacity.pipelines_running < w.capacity.max_pipelines;
+                    if w.is_available() != exp { bad.push(format!("is_available() = {} for status {} running {} max {}", w.is_available(), a[3], a[4], a[5])) }
+                }
+                "sweep" | "heartbeat" => {
+                    let base = if op == "sweep" { 5 } else { 7 };
+                    let nows: Vec<i64> = a[base - 1].split(',').map(|x| x.parse().unwrap()).collect(); let n: usize = a[base].parse().unwrap();
+                    for now in nows {
+                    let mut table: Vec<(String, String, i64, usize)> = Vec::new();
+                    for i in 0..n { table.push((a[base + 1 + 4 * i].clone(), a[base + 2 + 4 * i].clone(), a[base + 3 + 4 * i].parse().unwrap(), a[base + 4 + 4 * i].parse().unwrap())) }
+                    if op == "sweep" {
+                        let timeout: u64 = a[3].parse().unwrap();
+                        let mut workers: HashMap<WorkerId, WorkerNode> = HashMap::new();
+                        for (id, s, hb, r) in &table { let w = mk(id, s, *hb, *r); workers.insert(w.id.clone(), w); }
+                        let _ = at(now);
+                        let res = varpulis_cluster::health::health_sweep(&mut workers, Duration::from_nanos(timeout));
+                        if res.workers_checked != n { bad.push(format!("workers_checked = {} of {n}", res.workers_checked)) }
+                        for (id, s, hb, _) in &table {
+                            let exp = if s == "Ready" && (now - hb) as u64 > timeout { WorkerStatus::Unhealthy } else { st(s) };
+                            let got = workers[&WorkerId(format!("w{id}"))].status.clone();
+                            if got != exp { bad.push(format!("worker w{id} ({s}, heartbeat {} ns old, timeout {timeout}) is {got:?}, expected {exp:?}", now - hb)) }
+                            let listed = res.workers_marked_unhealthy.contains(&WorkerId(format!("w{id}")));
+                            if listed != (s == "Ready" && exp == WorkerStatus::Unhealthy) { bad.push(format!("worker w{id} listed as newly unhealthy = {listed}")) }
+                        }
+                    } else {
+                        let mut c = varpulis_cluster::coordinator::Coordinator::new();
+                        for (id, s, hb, r) in &table { let w = mk(id, s, *hb, *r); c.workers.insert(w.id.clone(), w); }
+                        let t = at(now);
+                        let wid = WorkerId(format!("w{}", a[3]));
+                        let req = HeartbeatRequest { events_processed: a[5].parse().unwrap(), pipelines_running: a[4].parse().unwrap(), pipeline_metrics: vec![] };
+                        let r = c.heartbeat(&wid, &req);
+                        let known = table.iter().any(|(id, ..)| format!("w{id}") == wid.0);
+                        if r.is_ok() != known { bad.push(format!("heartbeat returned {:?} for a {} worker", r.is_ok(), if known { "registered" } else { "unknown" })) }
+                        for (id, s, hb, run) in &table {
+                            let w = &c.workers[&WorkerId(format!("w{id}"))];
+                            if format!("w{id}") == wid.0 {
+                                let exp = if s == "Unhealthy" { WorkerStatus::Ready } else { st(s) };
+                                if w.status != exp { bad.push(format!("worker w{id} ({s}) is {:?} after its heartbeat, expected {exp:?}", w.status)) }
+                                if w.last_heartbeat != t { bad.push(format!("worker w{id}: last_heartbeat not refreshed")) }
+                                if w.capacity.pipelines_running != req.pipelines_running || w.events_processed != req.events_processed { bad.push(format!("worker w{id}: load figures not copied")) }
+                            } else if w.status != st(s) || w.capacity.pipelines_running != *run || w.last_heartbeat != at(*hb) { bad.push(format!("worker w{id} changed by another worker's heartbeat")) }
+                        }
+                    }
+                    }
+                }
+                "round_robin" | "least_loaded" => {
+                    let base = if op == "round_robin" { 4 } else { 3 };
+                    let n: usize = a[base].parse().unwrap();
+                    let mut ws: Vec<WorkerNode> = Vec::new();
+                    for i in 0..n { let mut w = mk(&a[base + 1 + 3 * i], "Ready", 0, a[base + 2 + 3 * i].parse().unwrap()); w.capacity.cpu_cores = a[base + 3 + 3 * i].parse().unwrap(); ws.push(w) }
+                    let refs: Vec<&WorkerNode> = ws.iter().collect();
+                    let p = PipelinePlacement { name: "p".into(), source: String::new(), worker_affinity: None, replicas: 1, partition_key: None };
+                    if op == "round_robin" {
+                        let counter: usize = a[3].parse().unwrap();
+                        let rr = RoundRobinPlacement::new();
+                        // the counter is private: advance it by placing on a one-worker list (bounded to small counters)
+                        let one = [refs.first().copied()].into_iter().flatten().collect::<Vec<_>>();
+                        for _ in 0..(counter % (n.max(1) * 4)) { let _ = rr.place(&p, &one); }
+                        let got = rr.place(&p, &refs);
+                        let exp = if n == 0 { None } else { Some(ws[(counter % (n * 4)) % n].id.clone()) };
+                        if got != exp { bad.push(format!("round robin with counter {} over {n} workers placed on {got:?}, expected {exp:?}", counter % (n.max(1) * 4))) }
+                    } else {
+                        let got = LeastLoadedPlacement.place(&p, &refs);
+                        match got {
+                            None => if n != 0 { bad.push("least loaded placed nowhere although workers are available".into()) },
+                            Some(id) => match ws.iter().find(|w| w.id == id) {
+                                None => bad.push(format!("least loaded placed on {id:?}, which is not in the list")),
+                                Some(w) => {
+                                    let key = |x: &WorkerNode| (x.capacity.pipelines_running as u128, x.capacity.cpu_cores.max(1) as u128);
+                                    for o in &ws {
+                                        let (ro, co) = key(o); let (rw, cw) = key(w);
+                                        if ro * cw < rw * co || (ro * cw == rw * co && ro < rw) { bad.push(format!("least loaded placed on {:?} ({rw}/{cw}) although {:?} ({ro}/{co}) is less loaded", w.id, o.id)) }
+                                    }
+                                }
+                            },
+                        }
+                    }
+                }
+                _ => { eprintln!("unknown workers op"); std::process::exit(2) }
+            }
+            if bad.is_empty() { println!("OK workers {op}") } else { println!("REPRODUCED workers {op}: {}", bad.join("; ")) }
+        }
         "routing" => {
             use varpulis_cluster::pipeline_group::{DeployedPipelineGroup, InterPipelineRoute, PartitionStrategy, PipelineGroupSpec, PipelinePlacement, ReplicaGroup};
             use varpulis_cluster::routing::{event_type_matches, find_target_pipeline};
